@@ -148,6 +148,31 @@ def build(desc):
         return U.DC(build(desc[1]), build(desc[2]), _meta(desc[3]))
     if t == 'dci':
         return U.DCI(build(desc[1]), build(desc[2]))
+    if t == 'wrap':
+        # ["wrap", "kind,kind,..", depth, inner]: `depth` nested one-child containers around inner (built iteratively)
+        x = build(desc[3])
+        kinds = desc[1].split(',')          # (a string, so that generic walkers do not take it for a node)
+        for d in range(desc[2]):
+            k = kinds[d % len(kinds)]
+            if k == 'list':
+                x = [x]
+            elif k == 'tuple':
+                x = (x,)
+            elif k == 'dict':
+                x = {'w': x}
+            elif k == 'od':
+                x = OrderedDict(w=x)
+            elif k == 'dd':
+                x = defaultdict(int, w=x)
+            elif k == 'deque':
+                x = deque([x])
+            elif k == 'nt':
+                x = U.NT1(x)
+            elif k == 'cg':
+                x = U.CG(x)
+            elif k == 'ci':
+                x = U.CI(x)
+        return x
     if t == 'bad':
         return U.Bad(desc[1])
     if t == 'fn':
@@ -471,6 +496,8 @@ def children_refs(desc):
         return [(kc, 1) for kc in desc[2]]
     if t in ('cn', 'dc', 'cs', 'dci'):
         return [(desc, 1), (desc, 2)]
+    if t == 'wrap':
+        return [(desc, 3)]
     if t == 'partial':
         return [(desc[2], i) for i in range(len(desc[2]))] + [(kc, 1) for kc in desc[3]]
     return []
